@@ -31,7 +31,10 @@ Pats == { UCat(G(A1), Opt01(G(B1))),            \* (a)(b)?
           URep(UCls({SA, SB}, FALSE), 2, 2, TRUE), \* [ab]{2}
           UCat(UGrp(A1, FALSE), G(B1)),           \* (?:a)(b)
           UCat(Star(UDot), G(B1)),                \* .*(b)
-          UCat(G(Star(A1)), G(Star(B1))) }      \* (a*)(b*)
+          UCat(G(Star(A1)), G(Star(B1))),       \* (a*)(b*)
+          UCat(UWCls(TRUE), ULook("eol")),       \* \W$    (matches a CR before the terminator when --crlf is not given)
+          ULit(SCR),                             \* \r
+          UCat(B1, UDot) }                       \* b.
 
 TChars == {TCDollar, TCOpen, TCClose, TC1, TC2, TCx, TCDash, TC0}
 ShortTpls == SeqsUpTo(TChars, 2)
@@ -47,10 +50,12 @@ Plain == Opt(FALSE, FALSE, FALSE, FALSE, FALSE)
 \* C19: replacement scenarios;  C09/C10: no template
 ReplSeeds == {[u |-> u, o |-> o, tpl |-> <<>>, repl |-> TRUE] : u \in Pats, o \in {Plain, [Plain EXCEPT !.word = TRUE], [Plain EXCEPT !.inv = TRUE]}}
 ReplOf(sd) == {[sd EXCEPT !.tpl = t] : t \in (IF sd.o = Plain THEN ShortTpls \cup PickTpls ELSE PickTpls)}
-PlainSeeds == {[u |-> u, o |-> o, tpl |-> <<>>, repl |-> FALSE] : u \in Pats,
+PlainSeeds0 == {[u |-> u, o |-> o, tpl |-> <<>>, repl |-> FALSE] : u \in Pats,
                   o \in {Plain, [Plain EXCEPT !.word = TRUE], [Plain EXCEPT !.inv = TRUE], [Plain EXCEPT !.ci = TRUE],
                          [Plain EXCEPT !.line = TRUE], [Plain EXCEPT !.crlf = TRUE]}}
 PlainOf(sd) == {sd}
+\* (under --crlf a literal CR is rejected by the matcher builder, see C11: no such scenario)
+PlainSeeds == {sd \in PlainSeeds0 : ~(sd.o.crlf /\ sd.u = ULit(SCR))}
 
 CONSTANTS Seeds, ScenariosOf(_)
 Init == scn \in Seeds /\ pc = "pick"
@@ -59,11 +64,14 @@ Next == Pick
 Spec == Init /\ [][Next]_vars
 
 Recs(sc) == LET c == Compiled(sc.u, sc.o) IN [i \in 1..Len(Lines) |-> LineRec(c, Lines[i], sc.o, sc.tpl, sc.repl)]
+\* the same catalogue with a CR appended to every line: a CRLF file searched WITHOUT --crlf (the CR is line content)
+RecsCR(sc) == LET c == Compiled(sc.u, sc.o) IN
+              IF sc.repl \/ sc.o.crlf THEN <<>> ELSE [i \in 1..Len(Lines) |-> LineRec(c, Lines[i] \o <<SCR>>, sc.o, sc.tpl, FALSE)]
 \* nullable: the pattern matches the empty string.  The engine works on bytes and then reports empty matches at
 \* every byte boundary, also inside a multi-byte character, which this symbol-level model does not represent:
 \* the harness does not judge lines holding a multi-byte symbol for such patterns.
 Nullable(sc) == LET c == Compiled(sc.u, sc.o) IN IsMatch(c.re, <<>>, c.n, Env(sc.o))
-Emitted == pc = "done" => PrintT(<<"EMIT", ToJson([u |-> scn.u, o |-> scn.o, tpl |-> scn.tpl, repl |-> scn.repl, lines |-> Recs(scn),
+Emitted == pc = "done" => PrintT(<<"EMIT", ToJson([u |-> scn.u, o |-> scn.o, tpl |-> scn.tpl, repl |-> scn.repl, lines |-> Recs(scn), crlines |-> RecsCR(scn),
                                                       nullable |-> Nullable(scn)])>>)
 EmitLines == (pc = "pick" /\ scn = CHOOSE x \in Seeds : TRUE) => PrintT(<<"LINES", ToJson([lines |-> Lines])>>)
 =============================================================================
